@@ -18,8 +18,12 @@ def S(cmd, a=0, b=0, c=0, **kw):
 
 
 PINNED = [
-    [S("runscript"), S("tick"), S("edit"), S("runscript"), S("runscript"), S("tick"), S("touch"), S("runscript"), S("editolder"), S("runscript")],
-    [S("runscript"), S("damage", "trunc"), S("runscript"), S("damage", "xver"), S("runscript"), S("damage", "pyver"), S("runscript"), S("damage", "garbage"), S("runscript"), S("tick"), S("edit"), S("runscript")],
+    [S("runscript"), S("tick"), S("editat", 1), S("runscript"), S("runscript"), S("tick"), S("touch"), S("runscript"), S("editat", 0), S("runscript")],
+    [S("runscript"), S("damage", "trunc"), S("runscript"), S("damage", "xver"), S("runscript"), S("damage", "pyver"), S("runscript"), S("damage", "garbage"), S("runscript"), S("tick"), S("editat", 1), S("runscript")],
+    # a version prepared earlier is installed after a cache hit happened in between
+    [S("tick"), S("touch"), S("runscript"), S("tick"), S("tick"), S("runscript"), S("editat", 2), S("runscript")],
+    # the link is re-pointed to another file that is older than the entry
+    [S("tick"), S("tick"), S("runscript"), S("relink"), S("runscript"), S("relink"), S("runscript"), S("editat", 2), S("relink"), S("runscript"), S("relink"), S("runscript")],
     [S("runcode", "t1", "exec", True), S("runcode", "t1", "single", True), S("runcode", "t1", "exec", False), S("damagecode", "t1", "trunc", "exec"), S("runcode", "t1", "single", False), S("runcode", "t1", "single", False)],
 ]
 
@@ -81,7 +85,7 @@ def run(tier, seed, replay=None):
     stats = core.validate_with_findings(res, "CodeCacheTrace", real, big_cfg, describe=describe, timeout=3000)
     if sweep:
         for f in sweep["failures"]:
-            res.violation(f"a cache entry truncated to {f['length']} of {f['of']} bytes was executed or fatal: {f}", f)
+            res.violation(f"a damaged cache entry was executed or fatal: {f}", f)
     runs = sum(1 for t in real for s in t["steps"] if s["cmd"] in ("runscript", "runcode"))
     cov = {
         "states": mc.get("distinct", 1),
@@ -91,6 +95,7 @@ def run(tier, seed, replay=None):
         "evaluations": runs + (sweep["lengths"] if sweep else 0),
         "runs": runs,
         "truncation_lengths_replayed": sweep["lengths"] if sweep else 0,
+        "byte_substitutions_replayed": sweep.get("substitutions", 0) if sweep else 0,
         "distinct_nontrivial": len({json.dumps([t["sw"]] + [(s["cmd"], s["a"], s["b"], s["c"]) for s in t["steps"]]) for t in real
                                     if sum(1 for s in t["steps"] if s["cmd"] in ("runscript", "runcode")) >= 2}),
         "rule": "scenario = TLC -simulate behaviour of CodeCache (tick/edit/edit-with-older-mtime/touch/run/damage/switch histories on a script and run/damage histories on two code texts in both modes and binding contexts) + pinned histories under three switch settings, replayed with explicit mtimes; plus every truncation length of a real cache file; non-trivial = at least two runs; distinct by switches + operation sequence",
